@@ -183,6 +183,20 @@ def _cases(ctx, deep=False):
         for k in (1, 2, 3, 4, 6):
             cases.append({'cfg': {'dup_after': d + [k]}, 'seed': rng.randrange(1 << 30),
                           'script': [['sync_open'], ['sleep', 1.0], ['sync_close'], ['reconnect']]})
+    # slow answers: the device's answer to one kind of setup request arrives dt seconds late (virtual time).  Every
+    # request the device receives is answered, so a request the LIBRARY re-sends meanwhile (radio-like link,
+    # needs_resending) is answered twice, both late; a request the library sends once is answered once, late.
+    for d in ([15, 1, None], [13, 1, 0], [5, 1, 5], [5, 0, 3], [5, 0, 2], [4, 0, 1], [2, 0, 3], [2, 0, 2], [2, 1, None]):
+        for dt in (0.05, 0.3, 0.45, 1.1):
+            for nr in (True, False):
+                if not nr and dt != 0.3:
+                    continue
+                cases.append({'cfg': {'slow_reply': d + [dt], 'needs_resending': nr}, 'seed': rng.randrange(1 << 30),
+                              'script': [['sync_open'], ['sleep', 1.0], ['sync_close'], ['reconnect']]})
+                if dt == 0.3 and nr:
+                    cases.append({'cfg': {'slow_reply': d + [dt], 'needs_resending': nr, 'mems': (1,)},
+                                  'seed': rng.randrange(1 << 30),
+                                  'script': [['open'], ['sleep', 4.0], ['close'], ['sleep', 0.5], ['reconnect']]})
     # firmware re-announcing a parameter value during the download (value-updated notifications)
     for s in range(seeds):
         for npar in (3, 4):
